@@ -13,6 +13,8 @@ import itertools
 import json
 from typing import Any, Dict, List, Optional, Tuple
 
+import numpy as np
+
 from mc import choices, qsim, simctl, world
 from mc.report import add_sample, add_violation, count, new_part
 
@@ -21,7 +23,7 @@ RULE = ("host-program ASTs over {gate on a persistent qubit, fresh-qubit measure
         "index) / register, add (literal, future, loop index, register; with/without modulus), if_{eq,ne,lt,ge,ez,nz} as context "
         "or callback, loop as context or loop_body, foreach, enumerate, loop_until with at-most exit}: all single statements to "
         "nesting depth 2, all pairs from the reduced pool, all triples from the small pool; x every subset of flush gaps x "
-        "every feasible measurement outcome script x initial arrays {[0,1],[1,1],[2,0,1]}; distinct = distinct (program, flush "
+        "every feasible measurement outcome script x initial arrays {[0,1],[1,1],[2,0,1]}; the reduced x small pair pool also on NV hardware config with and without the NV transpiler (measurement outcomes, memory, handles and the final state of the persistent qubit); distinct = distinct (program, flush "
         "placement, outcome script); non-trivial = contains a compound statement or a flush gap")
 ASSUMPTIONS = ["only usages the repository's docs, examples and tests exhibit are generated",
                "a RegFuture is used as an operand only inside the flush segment that produced it (M registers are recycled per flush by design)",
@@ -271,10 +273,21 @@ class Direct:
 
 # =============================================================================== interpreter A (real SDK)
 class Real:
-    def __init__(self, init, chooser, compiler=None):
+    def __init__(self, init, chooser, config="generic"):
         from netqasm.sdk.qubit import Qubit
         world.reset()
-        self.ctrl, self.conn = simctl.make_pair("alice", horizon=1500)
+        kw = {}
+        flavour = None
+        if config != "generic":
+            from netqasm.lang.instr.flavour import NVFlavour
+            from netqasm.sdk.build_types import NVHardwareConfig
+            from netqasm.sdk.transpile import NVSubroutineTranspiler
+            kw["hardware_config"] = NVHardwareConfig(5)
+            if config == "nv+transpiler":
+                kw["compiler"] = NVSubroutineTranspiler
+                flavour = NVFlavour()
+        self.config = config
+        self.ctrl, self.conn = simctl.make_pair("alice", horizon=6000 if config != "generic" else 1500, flavour=flavour, **kw)
         self.ex = self.ctrl.executor
         self.ex.chooser = chooser.outcome
         self.P = Qubit(self.conn)
@@ -403,9 +416,11 @@ class Real:
 
 
 # =============================================================================== comparison of one (program, flush set, init)
-def run_case(prog, flushes, init, part, case_extra=None) -> None:
+def run_case(prog, flushes, init, part, case_extra=None, config="generic") -> None:
     """flushes: set of gap indices g (flush after top-level statement g, 0-based; the final flush is always there)."""
     case = {"program": prog, "flush_after": sorted(flushes), "init": init}
+    if config != "generic":
+        case["config"] = config
     if case_extra:
         case.update(case_extra)
     try:
@@ -419,7 +434,7 @@ def run_case(prog, flushes, init, part, case_extra=None) -> None:
         return
 
     def one(chooser):
-        real = Real(init, chooser)
+        real = Real(init, chooser, config)
         obs = []
         try:
             for si, nodes in enumerate(tree):
@@ -534,6 +549,8 @@ def compare(tree, flushes, init, real, obs, outcomes, case, part) -> None:
     except Undefined as u:
         fault = str(u)
     kinds = "+".join(sorted({_k for s in case["program"] for _k in _kinds(s)}))
+    # NV hardware: a qubit relocation that the SDK decides statically but that sits inside a loop / conditional body
+    nv_reloc = real.config != "generic" and any(_measures_inside_control_flow(s, False) for s in case["program"])
     # ---- outcome class --------------------------------------------------------------------------
     last = obs[-1] if obs else ("nothing",)
     if fault is not None:
@@ -547,6 +564,12 @@ def compare(tree, flushes, init, real, obs, outcomes, case, part) -> None:
                       "or loop body that did not execute; the unconditional ret_reg at the end of the subroutine faults the whole "
                       "subroutine", case, {"message": last[2]})
         return
+    if last[0] == "raised" and nv_reloc and ("already allocated" in last[2] or "was not allocated" in last[2]):
+        sym = "double-allocation" if "already allocated" in last[2] else "not-allocated"
+        add_violation(part, f"nv-relocation-inside-control-flow/{sym}", "NV hardware: the SDK relocates the qubit at virtual ID 0 inside a "
+                      f"loop/conditional body; the relocation is decided once at build time but executes per iteration / not at all: {last[2]}",
+                      case)
+        return
     if last[0] == "raised":
         add_violation(part, f"sdk-or-controller-raises/{last[1]}/{kinds}", f"{last[1]}: {last[2]}", case, {"expected": _short(expected)})
         return
@@ -559,7 +582,23 @@ def compare(tree, flushes, init, real, obs, outcomes, case, part) -> None:
         return
     # ---- gate / measurement trace ----------------------------------------------------------------
     rt = real.trace()
-    if rt != d.trace:
+    if real.config != "generic":
+        # NV hardware: the SDK relocates qubits and the transpiler rewrites gates, so virtual ids and mnemonics differ by design.
+        # Compared instead: the measurement outcome sequence and the final state of the persistent qubit.
+        mo = [t[2] for t in rt if t[0] == "meas"]
+        dm = [t[2] for t in d.trace if t[0] == "meas"]
+        um = real.ex._qubit_unit_modules[real.conn.app_id]
+        pv = None
+        if 0 <= real.P.qubit_id < len(um) and um[real.P.qubit_id] is not None and real.ex.qs.is_product(um[real.P.qubit_id]):
+            pv = real.ex.qs.reduced([um[real.P.qubit_id]])
+        want = d.q.reduced(["P"])
+        if mo != dm or pv is None or not np.allclose(pv, want, atol=1e-8):
+            fp = "nv-relocation-inside-control-flow/wrong-effect" if nv_reloc else f"nv-effect/{real.config}/{kinds}"
+            add_violation(part, fp, "on NV hardware the measurement outcomes or the final state of the "
+                          "persistent qubit differ from the direct evaluation", case, {"real_meas": mo, "direct_meas": dm,
+                                                                                       "persistent_qubit_found": pv is not None})
+            return
+    elif rt != d.trace:
         add_violation(part, f"trace/{kinds}", "gate applications / measurements on the controller differ from the direct evaluation",
                       case, {"real_trace": rt, "direct_trace": d.trace})
         return
@@ -590,6 +629,20 @@ def compare(tree, flushes, init, real, obs, outcomes, case, part) -> None:
                                                       "after_statement": si})
                 return
     count(part, "agree")
+
+
+def _measures_inside_control_flow(s, inside: bool) -> bool:
+    k = s[0]
+    if k == "until":
+        return True                      # its body measures a fresh qubit every iteration
+    if k == "m":
+        return inside
+    for x in s:
+        if isinstance(x, list):
+            for y in x:
+                if isinstance(y, tuple) and _measures_inside_control_flow(y, True):
+                    return True
+    return False
 
 
 def _kinds(s):
@@ -731,6 +784,17 @@ def shard_pairs(shard):
     return part
 
 
+def shard_pairs_nv(shard):
+    _, first, config = shard
+    part = new_part()
+    pool = pool_reduced()
+    for second in pool_small():
+        for fl in (set(), {0}):
+            run_case([pool[first], second], fl, INITS[0], part, config=config)
+    count(part, f"pairs-{config}", len(pool_small()))
+    return part
+
+
 def shard_triples(shard):
     _, first, tier = shard
     part = new_part()
@@ -745,7 +809,7 @@ def shard_triples(shard):
 
 
 def _dispatch(shard):
-    return {"single": shard_singles, "pair": shard_pairs, "triple": shard_triples}[shard[0]](shard)
+    return {"single": shard_singles, "pair": shard_pairs, "triple": shard_triples, "pairnv": shard_pairs_nv}[shard[0]](shard)
 
 
 def _det(stmt):
@@ -760,6 +824,7 @@ def run(ctx):
     stride = 256
     shards: List[Any] = [("single", lo, stride) for lo in range(stride)]
     shards += [("pair", i) for i in range(len(pool_reduced()))]
+    shards += [("pairnv", i, cfg) for i in range(len(pool_reduced())) for cfg in ("nv", "nv+transpiler")]
     tp = pool_small() if ctx.tier == "quick" else pool_reduced()
     shards += [("triple", i, ctx.tier) for i in range(len(tp))]
     ctx.pmap(_dispatch, shards)
@@ -768,6 +833,8 @@ def run(ctx):
         ctx.require(f"kind/{k}", 1)
     ctx.require("agree", 1000)
     ctx.require("pairs", 100)
+    ctx.require("pairs-nv", 100)
+    ctx.require("pairs-nv+transpiler", 100)
     ctx.require("triples", 5)
 
 
@@ -792,4 +859,4 @@ def replay(case, part):
                 out.append(x)
         return tuple(out)
     prog = [stmt(s) for s in case["program"]]
-    run_case(prog, set(case["flush_after"]), case["init"], part)
+    run_case(prog, set(case["flush_after"]), case["init"], part, config=case.get("config", "generic"))
